@@ -733,6 +733,8 @@ impl SixtyCycleDay {
       if !solar_day.is_before(spring_solar_day) {
         lunar_year = lunar_year.next(1);
       }
+    } else {
+      lunar_year = lunar_year.next(-1);
     }
     let term: SolarTerm = solar_day.get_term();
     let mut index: isize = term.get_index() as isize - 3;
@@ -908,6 +910,8 @@ impl SixtyCycleHour {
       if !solar_time.is_before(spring_solar_time) {
         lunar_year = lunar_year.next(1);
       }
+    } else {
+      lunar_year = lunar_year.next(-1);
     }
     let term: SolarTerm = solar_time.get_term();
     let mut index: isize = term.get_index() as isize - 3;
